@@ -416,6 +416,9 @@ def check_C01(rep, fl):
                   "update reachable without the oversize test (path: %s)" % (show_state(bad4) if bad4 else ""), loc=t["sp"])
 
     check_room_left(rep, fl)
+    # ... and every key add() un-charges is named in the victim list it returns
+    import props_store
+    props_store.keep_rules(rep, fl, check_C07, {"R07.6"})
     # R01.9: the charge the policy released for a victim is matched by the entry leaving the store - otherwise the
     # resident entries add up to more than max_cost while `used` looks fine
     import props_life
